@@ -441,6 +441,31 @@ def check_flag(ctx):
         handles = any(mentions_flag(d, box) for d in deps) or any(mentions_flag(t, box) for t in tests)
         ctx.ob("R13.3", TK + ".to_tk.add_gate:dagger-flag", handles, found="exports %s under the tests %s" % (ast.unparse(name_expr), [ast.unparse(t) for t in tests[-2:]]),
                required="the name of the exported operation depends on the dagger flag of the box (S.dagger() has the name of S), or flagged boxes are refused", mod=TK, node=call, sig="export-flag")
+    # the dagger of a table gate is exported under `<name>dg`: tket has such an operation only for S, T, V, SX (+ controlled forms); a self-adjoint gate must
+    # therefore BE its own dagger (`_dagger=None`), or X.dagger(), H.dagger(), CZ.dagger() ... are refused although they are X, H, CZ
+    import numpy as np
+    from ..tables import fold as tfold, as_matrix, NotFoldable, close
+    HAS_DG = {"S", "T", "V", "SX", "CSX", "CV"}
+    G_ = "discopy.quantum.gates"
+    ng = 0
+    for st in m.modules[G_].body:
+        if not (isinstance(st, ast.Assign) and isinstance(st.value, ast.Call) and ast.unparse(st.value.func) == "QuantumGate"):
+            continue
+        c = st.value
+        try:
+            name, M = tfold(c.args[0]), as_matrix(tfold(c.args[2]))
+            dag = False
+            for k in c.keywords:
+                if k.arg == "_dagger":
+                    dag = tfold(k.value)
+        except NotFoldable as e:
+            raise AnalysisError("gate table %s outside the foldable vocabulary: %s" % (ast.unparse(st.targets[0]), e))
+        ng += 1
+        herm = close(M, M.conj().T)
+        ok = dag is None or name in HAS_DG or not herm
+        ctx.ob("R13.3", "%s.%s:exportable-dagger" % (G_, ast.unparse(st.targets[0])), ok, found="_dagger=%r, Hermitian=%s, tket operation %sdg: %s" % (dag, herm, name, "exists" if name in HAS_DG else "does not exist"),
+               required="the dagger of every table gate can be exported: it is the gate itself (self-adjoint, `_dagger=None`) or tket has the operation `<name>dg`", mod=G_, node=st, sig="exportable-dagger:" + str(name))
+    ctx.need(ng >= 7, "fewer than 7 literal gate tables found in gates.py (%d)" % ng)
     fn = m.func(TK + ".from_tk")
     bft = inner(ctx, fn, "box_from_tk")
     lp = next((s for s in bft.body if isinstance(s, ast.For) and ast.unparse(s.iter) == "GATES"), None)
